@@ -3,6 +3,7 @@ package props
 import (
 	"errors"
 	"fmt"
+	"io"
 	"time"
 
 	"github.com/gorilla/websocket"
@@ -37,6 +38,10 @@ type CtlCase struct {
 	// "return c.WriteControl(...)" yields once the application has sent its
 	// close); it is a handler error like any other.
 	FailCloseSent bool `json:"fail_close_sent,omitempty"`
+	// FailEOF: the failing handler returns io.EOF itself - an error like any
+	// other. (Judged only for a control frame that sits between messages: inside
+	// a message every read error that is io.EOF means "unexpected EOF".)
+	FailEOF bool `json:"fail_eof,omitempty"`
 	// IdleFirst: more than a second passes between the set-up of the
 	// connection and the first read (rare: it costs real time).
 	IdleFirst bool `json:"idle_first,omitempty"`
@@ -113,6 +118,7 @@ func genCtlCase(t *rapid.T) CtlCase {
 	c.StaleWriteDeadline = rapid.IntRange(0, 3).Draw(t, "stale_wdl") == 0
 	c.FailNetErr = rapid.Bool().Draw(t, "fail_net_err")
 	c.FailCloseSent = !c.FailNetErr && rapid.Bool().Draw(t, "fail_close_sent")
+	c.FailEOF = !c.FailNetErr && !c.FailCloseSent && rapid.Bool().Draw(t, "fail_eof")
 	c.IdleFirst = rapid.IntRange(0, 299).Draw(t, "idle_first") == 137
 	if rapid.IntRange(0, 2).Draw(t, "reinstall") == 0 {
 		c.Reinstall, c.ReinstallAt = true, rapid.IntRange(0, 3).Draw(t, "reinstall_at")
@@ -138,6 +144,14 @@ func checkC08(c CtlCase, o *Obs) error {
 		errHandler = errHandlerNet
 	} else if c.FailCloseSent {
 		errHandler = websocket.ErrCloseSent
+	} else if c.FailEOF {
+		inside := false
+		if c.FailAt < len(model.Ctl) {
+			inside = model.Ctl[c.FailAt].Inside
+		}
+		if !inside {
+			errHandler = io.EOF
+		}
 	}
 	h := &handlerLog{failAt: -1, prog: prog, custom: c.Handlers == "custom", failErr: errHandler, reinstall: c.Reinstall, reinstallAfter: c.ReinstallAt}
 	nctl := len(model.Ctl)
@@ -398,6 +412,45 @@ func checkC08(c CtlCase, o *Obs) error {
 		_ = frames
 	}
 
+	// The same through ReadJSON: a close frame, or a ping whose handler fails,
+	// between the fragments of a JSON message that is not yet complete - the
+	// read call returns the CloseError / the handler's error, not a verdict of
+	// its own about the truncated document.
+	if c.Handlers == "default" || c.Handlers == "fail" {
+		o.Evals(1)
+		trj := xport.NewScriptConn(nil, nil)
+		connj, err := NewConn(c.R, trj, nil)
+		if err != nil {
+			return err
+		}
+		errHandler := errHandler
+		if errHandler == io.EOF {
+			errHandler = errors.New("handler failed") // inside a message io.EOF means "unexpected EOF"
+		}
+		mk := func(f wsref.Frame, k byte) []byte {
+			f.Masked, f.Key = c.R.Server, [4]byte{k, 1, 2, 3}
+			return wsref.AppendFrame(nil, f)
+		}
+		w := mk(wsref.Frame{Opcode: wsref.OpText, Payload: []byte(`{"a":`)}, 1)
+		if c.Handlers == "default" {
+			w = append(w, mk(wsref.Frame{Fin: true, Opcode: wsref.OpClose, Payload: wsref.CloseBody(1000, "bye")}, 2)...)
+		} else {
+			w = append(w, mk(wsref.Frame{Fin: true, Opcode: wsref.OpPing, Payload: []byte("x")}, 2)...)
+			connj.SetPingHandler(func(string) error { return errHandler })
+		}
+		w = append(w, mk(wsref.Frame{Fin: true, Opcode: wsref.OpCont, Payload: []byte(`1}`)}, 3)...)
+		trj.SetInput(w, nil)
+		var v interface{}
+		jerr := connj.ReadJSON(&v)
+		var ce *websocket.CloseError
+		switch {
+		case c.Handlers == "default" && (!errors.As(jerr, &ce) || ce.Code != 1000 || ce.Text != "bye"):
+			return fmt.Errorf("ReadJSON of a message whose fragments are separated by a close frame (1000, bye) returned %v (value %v), want that CloseError", jerr, v)
+		case c.Handlers == "fail" && !errors.Is(jerr, errHandler):
+			return fmt.Errorf("ReadJSON of a message whose fragments are separated by a ping whose handler failed with %q returned %v (value %v)", errHandler, jerr, v)
+		}
+		o.Class("control_frame_inside_a_message_read_with_ReadJSON")
+	}
 	inside, big, reason := false, false, false
 	for _, mc := range model.Ctl {
 		inside = inside || mc.Inside
